@@ -401,9 +401,9 @@ func dynamic(cfg lib.Cfg, repo string) ([]report, map[string]any, error) {
 	}
 	defer os.Remove(bin)
 
-	scs := []scenario{{"load", 6, 1}, {"insert", 4, 1}, {"numhash", 4, 1}, {"latest", 3, 1}, {"get", 5, 1}, {"pipeline", 5, 2}}
+	scs := []scenario{{"load", 6, 1}, {"insert", 4, 1}, {"numhash", 4, 1}, {"cache", 4, 1}, {"latest", 3, 1}, {"get", 5, 1}, {"pipeline", 5, 2}}
 	if cfg.Thorough() {
-		scs = []scenario{{"load", 30, 3}, {"insert", 20, 3}, {"numhash", 20, 3}, {"latest", 10, 4}, {"get", 20, 6}, {"pipeline", 12, 10}}
+		scs = []scenario{{"load", 30, 3}, {"insert", 20, 3}, {"numhash", 20, 3}, {"cache", 20, 3}, {"latest", 10, 4}, {"get", 20, 6}, {"pipeline", 12, 10}}
 	}
 	if cfg.Replay != "" {
 		var rep struct {
